@@ -9,7 +9,7 @@ use shuttle::rand::{rngs::ThreadRng, thread_rng, Rng};
 use std::collections::VecDeque;
 use std::future::Future;
 use std::pin::Pin;
-use std::sync::atomic::{AtomicUsize, Ordering};
+use std::sync::atomic::{AtomicBool, AtomicUsize, Ordering};
 use std::sync::{Arc, Mutex};
 use std::task::{Context, Poll};
 use tracing::trace;
@@ -62,6 +62,8 @@ const NOTIFIED: usize = 2; // notified
 #[derive(Debug)]
 struct Waiter {
     flag: Arc<AtomicUsize>,
+    // set when the waiter was notified by `notify_one` (as opposed to `notify_waiters`)
+    by_notify_one: Arc<AtomicBool>,
     id: usize,
     tx: oneshot::Sender<()>,
 }
@@ -75,6 +77,9 @@ struct Waiter {
 pub struct Notified<'a> {
     id: usize, // unique id for this waiter
     flag: Arc<AtomicUsize>,
+    by_notify_one: Arc<AtomicBool>,
+    // whether this future has reported its notification (returned `Ready`, or `true` from `enable`)
+    done: bool,
     /// The `Notify` being received on.
     notify: &'a Notify,
     // oneshot being awaited on
@@ -100,8 +105,10 @@ impl Notify {
         let id = state.next_id;
         state.next_id += 1;
         let flag = Arc::new(AtomicUsize::new(INIT));
+        let by_notify_one = Arc::new(AtomicBool::new(false));
         let waiter = Waiter {
             flag: flag.clone(),
+            by_notify_one: by_notify_one.clone(),
             id,
             tx,
         };
@@ -116,6 +123,8 @@ impl Notify {
         Notified {
             id,
             flag,
+            by_notify_one,
+            done: false,
             notify: self,
             rx,
         }
@@ -154,6 +163,7 @@ impl Notify {
             // Must set flag before notifying waiter.
             // The send may fail if the Notified future is dropped between the flag store
             // and the send (the flag is already NOTIFIED, so the future already completed).
+            waiter.by_notify_one.store(true, Ordering::SeqCst);
             waiter.flag.store(NOTIFIED, Ordering::SeqCst);
             let _ = waiter.tx.send(());
         }
@@ -225,7 +235,11 @@ impl Notified<'_> {
     /// If this method returns true, any future calls to poll on the same future
     /// will immediately return `Poll::Ready`.
     pub fn enable(self: Pin<&mut Self>) -> bool {
-        self.poll_inner()
+        let notified = self.poll_inner();
+        if notified {
+            *self.project().done = true;
+        }
+        notified
     }
 
     fn poll_inner(&self) -> bool {
@@ -258,13 +272,17 @@ impl Future for Notified<'_> {
 
     fn poll(self: Pin<&mut Self>, cx: &mut Context<'_>) -> Poll<()> {
         let enabled = self.poll_inner();
+        let mut this = self.project();
         if enabled {
+            *this.done = true;
             Poll::Ready(())
         } else {
-            let mut this = self.project();
             match this.rx.as_mut().poll(cx) {
                 Poll::Pending => Poll::Pending,
-                Poll::Ready(_) => Poll::Ready(()),
+                Poll::Ready(_) => {
+                    *this.done = true;
+                    Poll::Ready(())
+                }
             }
         }
     }
@@ -283,6 +301,10 @@ impl PinnedDrop for Notified<'_> {
             // If the waiter hasn't been notified, remove it from the waiter queue
             let mut state = self.notify.state.lock().unwrap();
             let _ = state.remove_waiter(self.id);
+        } else if !self.done && self.by_notify_one.load(Ordering::SeqCst) && !std::thread::panicking() {
+            // Notified by `notify_one`, but dropped before the notification was reported: as in tokio, the
+            // notification is passed on to another waiter (or stored), so that it is not lost.
+            self.notify.notify_one();
         }
     }
 }
